@@ -82,6 +82,25 @@ GScmp == UNION {WithTruncs([V(0, 3, pt, 2, 0, 0, 4, 202, p) EXCEPT !.st = t, !.p
 GMisc == {[V(0, 0, 0, 0, 0, 0, 0, nh, 16) EXCEPT !.ver = ver] : ver \in {0, 1, 15}, nh \in {0, 6, 17, 43, 201, 202, 203, 255}}
          \cup UNION {WithTruncs(V(3, 3, pt, 3, 0, 0, 8, nh, p)) : pt \in {0, 1, 2, 200}, nh \in {17, 202}, p \in {1232, 65535}}
 
+(* (vi) SCMP error messages whose quote is itself a valid SCION/UDP or SCION/SCMP packet: every quote prefix length  *)
+(* and every cut of the outer buffer.  The outer packet is IPv4/IPv4, empty path (36 bytes); `quote` describes the     *)
+(* inner packet: q = quoted bytes written, c = inner header size, pl/ul = inner length fields, t = inner total size.    *)
+Inner(dn, sn, pt, nh) ==
+  LET c == Nominal(dn, sn, pt, 2, 0, 0, 0) IN
+  [dn |-> dn, sn |-> sn, pt |-> pt, s0 |-> 2, nh |-> nh, c |-> c, pl |-> 12, ul |-> 12, t |-> c + 12, q |-> c + 12]
+QuoteVec(st, inner, q, opl, len) ==
+  [V(0, 0, 0, 0, 0, 0, 0, 202, opl) EXCEPT !.st = st, !.ul = 0, !.len = len] @@ [quote |-> [inner EXCEPT !.q = q]]
+Inners == {Inner(a[1], a[2], pt, nh) :
+             a \in (IF THOROUGH THEN {<<0, 0>>, <<3, 4>>, <<15, 9>>} ELSE {<<0, 0>>}),
+             pt \in {0, 1, 2}, nh \in (IF THOROUGH THEN {17, 202, 6} ELSE {17, 202})}
+GQuote(st) ==
+  LET f == ScmpErrFixed(st) IN
+  UNION {    \* (A) every quote prefix length, outer length fields consistent with it
+           {QuoteVec(st, inn, q, f + q, 36 + f + q) : q \in 0..inn.t}
+             \* (B) the full quote announced, the outer buffer cut at every length from the SCMP header on
+        \cup {QuoteVec(st, inn, inn.t, f + inn.t, len) : len \in 36..(36 + f + inn.t)}
+        : inn \in Inners}
+
 (* stand-alone views: [k, len, fields] *)
 GAlone ==
   UNION {{[k |-> "stdpath", len |-> n, s0 |-> s[1], s1 |-> s[2], s2 |-> s[3], ci |-> s[1] % 4, ch |-> s[2], pairs |-> TRUE] :
@@ -94,11 +113,11 @@ GAlone ==
   \cup {[k |-> "scmpm", len |-> n, st |-> t, pairs |-> TRUE] :
           t \in ScmpTypes, n \in {0, 3, 4, 7, 8, 9, 19, 20, 21, 23, 24, 25, 27, 28, 29, 40}}
 
-GroupIds == {<<"nib", n>> : n \in Nibs} \cup {<<"seg", s>> : s \in SegVals}
+GroupIds == {<<"nib", n>> : n \in Nibs} \cup {<<"seg", s>> : s \in SegVals} \cup {<<"quote", st>> : st \in {1, 2, 4, 5, 6}}
             \cup {<<"hl", 0>>, <<"ptr", 0>>, <<"len", 0>>, <<"scmp", 0>>, <<"misc", 0>>, <<"alone", 0>>}
 GroupOf(g) ==
   CASE g[1] = "nib" -> GNib(g[2]) [] g[1] = "seg" -> GSeg(g[2]) [] g[1] = "hl" -> GHl
-    [] g[1] = "ptr" -> GPtr [] g[1] = "len" -> GLen [] g[1] = "scmp" -> GScmp
+    [] g[1] = "ptr" -> GPtr [] g[1] = "len" -> GLen [] g[1] = "scmp" -> GScmp [] g[1] = "quote" -> GQuote(g[2])
     [] g[1] = "misc" -> GMisc [] OTHER -> GAlone
 
 Init == grp \in GroupIds /\ cur = NONE
@@ -108,8 +127,17 @@ Next == /\ cur = NONE
 Spec == Init /\ [][Next]_<<grp, cur>>
 
 IsVec == cur # NONE
+(* descriptor of the quote as the SCMP view hands it out: the bytes after the fixed part, as far as present *)
+QuoteDesc(v) ==
+  LET f == ScmpErrFixed(v.st)
+      o == PktOutcome(Desc(v))
+      avail == IF o.scmp.ok THEN Min2(v.quote.q, Max2(o.scmpm - f, 0)) ELSE 0
+  IN [len |-> avail, ver |-> 0, hl |-> v.quote.c \div 4, pl |-> v.quote.pl, pt |-> v.quote.pt, dn |-> v.quote.dn, sn |-> v.quote.sn,
+      s0 |-> v.quote.s0, s1 |-> 0, s2 |-> 0, ul |-> v.quote.ul, st |-> 128]
 Outcome(v) ==
-  CASE v.k = "pkt"     -> PktOutcome(Desc(v))
+  CASE v.k = "pkt" /\ "quote" \in DOMAIN v ->
+         PktOutcome(Desc(v)) @@ [dport |-> PktOutcome(Desc(v)).scmp.ok /\ QuoteHasPort(QuoteDesc(v), v.quote.nh)]
+    [] v.k = "pkt"     -> PktOutcome(Desc(v))
     [] v.k = "stdpath" -> [view |-> StdPathLayout(v.len, v.s0, v.s1, v.s2)]
     [] v.k = "onehop"  -> [view |-> FixedLayout(v.len, 32)]
     [] v.k = "info"    -> [view |-> FixedLayout(v.len, 8)]
